@@ -270,6 +270,118 @@ def rule_r4(facts, rep, rid="C12-R4"):
         rep.violation(rid, r.def_ + "|loop-survives-panics", "the message loop no longer guards handle_message with catch_unwind: one panic ends the server", r.loc)
 
 
+# ------------------------------------------------------------------------------------------ R5 lock discipline
+
+LOCK_ACQ = ("RwLock::read", "RwLock::write", "Mutex::lock", "RwLock<T>::read", "RwLock<T>::write", "Mutex<T>::lock")
+POISON_OK = ("unwrap_or_else",)
+
+
+def _is_server_lock_acq(x):
+    """`<..>.server.read()/write()/lock()` on the router's shared state."""
+    if x.get("k") != "mcall" or x["name"] not in ("read", "write", "lock"):
+        return False
+    cal = fb.callee(x) or ""
+    if not (cal.endswith(LOCK_ACQ) or "RwLock" in cal or "Mutex" in cal):
+        return False
+    r = x["recv"]
+    while r is not None and r.get("k") in ("addrof", "unary"):
+        r = r["e"]
+    return r is not None and r.get("k") == "field" and r["name"] == "server"
+
+
+def rule_r5(facts, rep, rid="C12-R5"):
+    from .common import ctx, chain_up
+    acq_fns = {}
+    for f in facts.body_fns():
+        if f.crate != "iwes" or f.kind == "closure" or "::tests::" in f.def_:
+            continue
+        sites = [x for x in fb.walk(f.body) if _is_server_lock_acq(x)]
+        if sites:
+            acq_fns[f.def_] = (f, sites)
+    rep.floor(rid, "acquisitions of the shared server lock", sum(len(v[1]) for v in acq_fns.values()), 3)
+    cg = facts.callgraph
+    # (a) poison recovery at every acquisition
+    for d, (f, sites) in sorted(acq_fns.items()):
+        rep.saw_fn(f)
+        c = ctx(f)
+        counts = {}
+        for x in sites:
+            i = counts.get(x["name"], 0)
+            counts[x["name"]] = i + 1
+            key = "%s|%s:%d|poison-recovery" % (d, x["name"], i)
+            ups = chain_up(c, x)
+            nxt = ups[0] if ups else None
+            ok_rec = False
+            how = "result used as `%s`" % (fb.show(nxt)[:60] if nxt else "?")
+            if nxt is not None and nxt["name"] in ("unwrap_or_else", "unwrap_or_default", "map_err", "or_else"):
+                if "into_inner" in fb.show(nxt["args"][0]) if nxt["args"] else False:
+                    ok_rec = True
+            # `match lock.read() { Ok(g) => .., Err(p) => p.into_inner() }`
+            par = c.parents(x)
+            if par and par[0].get("k") == "match" and "into_inner" in fb.show(par[0]):
+                ok_rec = True
+            if ok_rec:
+                rep.ok(rid, key, "poisoning is recovered from (PoisonError::into_inner)", "%s:%s" % (f.file, x.get("ln")))
+            else:
+                rep.violation(rid, key, "the shared server lock is taken with `%s` (%s): a handler that panics under the write guard poisons the lock — note content can do that, see the "
+                              "C11 inventory — and from then on every acquisition at this site fails, so every later %s is lost or answered with an error although the server state is intact" % (
+                                  x["name"], how, "request" if x["name"] == "read" else "edit notification"), "%s:%s" % (f.file, x.get("ln")))
+    # (b) no re-entrant acquisition while a guard is held
+    acq_reach = {}
+    for d in acq_fns:
+        acq_reach[d] = True
+    for f in facts.body_fns():
+        if f.crate != "iwes" or f.kind == "closure":
+            continue
+        if f.def_ not in acq_reach:
+            reach = cg.reachable_from([f.def_])
+            if any(a in reach for a in acq_fns if a != f.def_):
+                acq_reach[f.def_] = False   # acquires transitively
+    for d, (f, sites) in sorted(acq_fns.items()):
+        c = ctx(f)
+        for x in sites:
+            # scope of the guard: the enclosing `let` statement's following siblings, or the enclosing expression statement
+            par = c.parents(x)
+            scope_nodes = []
+            let = next((p for p in par if p.get("k") == "let"), None)
+            if let is not None:
+                blk = next((p for p in c.parents(let) if p.get("k") == "block"), None)
+                if blk is not None:
+                    seq = list(blk.get("stmts", [])) + ([blk["e"]] if blk.get("e") is not None else [])
+                    after = False
+                    for st in seq:
+                        if after:
+                            scope_nodes.append(st)
+                        if st is let:
+                            after = True
+            else:
+                top = x
+                for p in par:
+                    if p.get("k") == "block":
+                        break
+                    top = p
+                scope_nodes.append(top)
+            bad = []
+            for sn in scope_nodes:
+                for y in fb.walk(sn):
+                    if y is x:
+                        continue
+                    if _is_server_lock_acq(y) and y is not x and let is not None:
+                        bad.append(("acquires it again directly", y))
+                    if y.get("k") in ("mcall", "call"):
+                        cal = fb.rcallee(y) or fb.callee(y)
+                        if cal in acq_reach and cal != d or (cal == d and y.get("k") == "mcall"):
+                            bad.append(("calls %s, which %s" % (fb.last2(cal), "acquires the lock" if acq_reach.get(cal) else "reaches an acquisition"), y))
+            key = "%s|%s:%d|no-reentrant-acquisition" % (d, x["name"], [y for y in sites if y["name"] == x["name"]].index(x))
+            if bad:
+                why, y = bad[0]
+                rep.violation(rid, key, "while the guard from `%s.%s()` is held, %s %s: std's RwLock is not re-entrant — if a writer (an edit notification) queues between the two "
+                              "acquisitions, the second blocks behind the writer and the writer behind the first: the request is never answered and the message loop hangs" % (
+                                  "self.server", x["name"], f.def_.rsplit("::", 1)[-1], why), "%s:%s" % (f.file, y.get("ln")))
+            else:
+                rep.ok(rid, key, "no call made under the guard reaches another acquisition (%d statement(s) in scope)" % len(scope_nodes), "%s:%s" % (f.file, x.get("ln")))
+
+
 def _site_line_in(fn, node, closures):
     for c in closures:
         if any(y is node for y in fb.walk(c)):
@@ -290,3 +402,6 @@ def run(facts, rep, tier):
     rule_r2(facts, rep)
     rule_r3(facts, rep)
     rule_r4(facts, rep)
+    rep.rule("C12-R5", "Lock discipline on the shared server state: every acquisition recovers from poisoning (a panicking edit handler must not turn every later request into an "
+             "error), and no fn calls, while it holds a guard, anything that acquires the lock again (re-entrant read + queued writer = deadlock, no response).")
+    rule_r5(facts, rep)
